@@ -267,6 +267,9 @@ pub struct World {
     pub last_out: Vec<Out>,
     /// protocol violations by the initiator noticed at emission time (C28)
     pub violations: Vec<(u8, String, String)>,
+    /// for each entry of `violations`: an earlier message on the same mini-protocol to the same
+    /// peer was emitted in the SAME step (two requests in one pass, no confirmation involved)
+    pub violations_same_pass: Vec<bool>,
     /// Connect(p) emitted for a peer banned earlier (C27)
     pub connect_after_ban: Vec<u8>,
     pub steps: usize,
@@ -292,7 +295,7 @@ impl World {
             ..Default::default()
         };
         let env = vec![PeerEnv::default(); cfg.peers as usize];
-        World { cfg, b, env, banned_ever: BTreeSet::new(), last_out: vec![], violations: vec![], connect_after_ban: vec![], steps: 0 }
+        World { cfg, b, env, banned_ever: BTreeSet::new(), last_out: vec![], violations: vec![], violations_same_pass: vec![], connect_after_ban: vec![], steps: 0 }
     }
 
     /// Replays a history on a fresh world. A panic inside the behaviour is
@@ -360,6 +363,16 @@ impl World {
                 }
             }
             Ev::Recv(p, r) => {
+                // independent ban monitor (C27): an unsolicited keep-alive response to a tracked
+                // peer that has no keep-alive outstanding at all (or no connection) is a protocol
+                // violation whatever the initiator's own bookkeeping says: the peer is banned from
+                // here on
+                if *r == R::Bad && self.b.peers.contains_key(&pid(*p)) {
+                    let e = &self.env[*p as usize];
+                    if !e.connected || (e.wire.ka != 1 && e.delivered.ka != 1) {
+                        self.banned_ever.insert(*p);
+                    }
+                }
                 let e = &mut self.env[*p as usize];
                 let m = reply_msg(*r, e.last_cookie);
                 e.wire.server_sends(*r);
@@ -371,6 +384,7 @@ impl World {
         }
         // interpret what the behaviour asks for
         self.last_out.clear();
+        let mut sent_this_step: Vec<(u8, u16)> = vec![];
         for o in drain(&mut self.b) {
             match o {
                 BehaviorOutput::InterfaceCommand(InterfaceCommand::Connect(p)) => match pidx(&p) {
@@ -397,9 +411,12 @@ impl World {
                             e.last_cookie = *c;
                         }
                         let label = msg_label(&m);
+                        let chan = pallas_network2::Message::channel(&m);
                         if let Err(why) = e.wire.client_sends(&m) {
                             self.violations.push((i, label.clone(), why));
+                            self.violations_same_pass.push(sent_this_step.contains(&(i, chan)));
                         }
+                        sent_this_step.push((i, chan));
                         e.unconfirmed.push_back(m);
                         self.last_out.push(Out::Send(i, label));
                     }
